@@ -672,3 +672,36 @@ fn code_unlisted_case(ccp: bool) {
 }
 ah!(c30_croo_unlisted, { code_unlisted_case(false) });
 ah!(c30_ccp_unlisted, { code_unlisted_case(true) });
+
+// --- LDC (mode 0, contract code): an unlisted contract is never loaded ------------------------------
+ah!(c30_ldc_unlisted, {
+    let mut st = SlotStorage::new();
+    let code: [u8; 3] = kani::any();
+    st.code[0] = Some((DST, code.to_vec()));
+    st.code[1] = Some((OTHER, alloc::vec![1u8, 2, 3, 4, 5]));
+    let mut gas = any_gas_costs();
+    let (base, per_unit): (Word, Word) = (kani::any(), kani::any());
+    gas.ldc = DependentCost::HeavyOperation { base, gas_per_unit: per_unit };
+    let mut regs = any_registers();
+    assume_reg_inv(&regs);
+    kani::assume(regs[R_HP] == VM_MAX_RAM && regs[R_SP] <= LS as Word);
+    regs[0x11] = 64; // contract id (= DST) in memory
+    let probe: usize = kani::any();
+    kani::assume(probe < 64);
+    let mprobe: usize = kani::any();
+    kani::assume(mprobe < LS);
+    let mut vm = mk_vm_with(regs, tr_memory(&SRC, &DST), gas, st);
+    vm.input_contracts.insert(SRC);
+    vm.input_contracts.insert(OTHER);
+    let res = op::LDC::new(rid(0x11), rid(0x12), rid(0x13), fuel_asm::Imm06::new(0)).execute(&mut vm);
+    if let Some(exp) = charge(&regs, &vm.registers, &res, base, probe) {
+        assert!(res.is_err(), "an unlisted contract is never loaded");
+        assert!(vm.registers[probe] == exp[probe], "only the base cost is charged; $ssp, $sp, $pc and the rest stay");
+        assert!(vm.memory.verif_flat(mprobe) == Some(tr_byte(mprobe)), "no byte of memory is written");
+        if matches!(res, Err(RuntimeError::Recoverable(PanicReason::ContractNotInInputs))) {
+            assert!(matches!(vm.panic_context, PanicContext::ContractId(c) if c == DST));
+            kani::cover!(true, "unlisted contract refused");
+        }
+    }
+    core::mem::forget(vm);
+});
